@@ -121,6 +121,12 @@ func (f *flusher) markMetadataDirty(key, mdSuffix string) {
 		return // Blob is not yet complete, we can't start flushing.
 	}
 
+	// A flush of this blob that just finished may lift the eviction ban the caller took (the ban is not counted).
+	// Ban again under f.mu: the flusher only unbans under f.mu while the key is not tracked.
+	if err := f.mem.BanEviction(key); err != nil && !errors.Is(err, os.ErrNotExist) {
+		f.log.With("key", key, "error", err).Error("Could not ban eviction of a blob with dirty metadata")
+	}
+
 	f.blobs[key] = &blob{
 		key:       key,
 		dataDirty: false,
@@ -180,6 +186,12 @@ func (f *flusher) flush(b *blob) {
 	verifhook.Point("tiered.flush.start", key)
 	defer func() {
 		verifhook.Point("tiered.flush.before_unban", key)
+		// Metadata written since the bookkeeping was dropped tracks the key again: the blob is dirty and must stay banned.
+		f.mu.Lock()
+		defer f.mu.Unlock()
+		if _, dirtyAgain := f.blobs[key]; dirtyAgain {
+			return
+		}
 		err := f.mem.UnbanEviction(key) // prevent leak
 		if err != nil {
 			f.log.With(
